@@ -187,13 +187,18 @@ def stderr_shape(rng, shape):
         return b""
     elif shape == "latin1":
         return (f"café {u()} {path()}\nnaïve {u()}\n").encode("latin-1")
+    elif shape == "highbytes":
+        # every byte 0x80-0xFF (not valid UTF-8; some have no cp1252 mapping): the documented fallback is latin-1, which maps them all
+        return f"bytes {u()} ".encode() + bytes(range(0x80, 0x100)) + f" end {path()}\nsecond {u()}\n".encode()
+    elif shape == "utf8-plus-stray-byte":
+        return f"Ошибка {u()} ".encode("utf-8") + bytes([rng.choice([0x81, 0x8D, 0x8F, 0x90, 0x9D, 0xFF])]) + f" {path()}\n".encode()
     else:
         raise ValueError(shape)
     return ("\n".join(L) + "\n").encode("utf-8")
 
 
-REJECT_SHAPES = ["parse", "xpath", "dupes", "excluded", "javaprefix", "crlf", "unicode", "jarfile", "big", "wsedge", "empty", "latin1"]
-WARN_SHAPES = ["xpath", "dupes", "unicode", "crlf", "latin1", "big", "excluded"]
+REJECT_SHAPES = ["parse", "xpath", "dupes", "excluded", "javaprefix", "crlf", "unicode", "jarfile", "big", "wsedge", "empty", "latin1", "highbytes", "utf8-plus-stray-byte"]
+WARN_SHAPES = ["xpath", "dupes", "unicode", "crlf", "latin1", "big", "excluded", "highbytes", "utf8-plus-stray-byte"]
 
 # outcome kinds -> (class, scenario for the stand-in)
 def outcomes(tier):
